@@ -13,7 +13,7 @@ from concurrent.futures import ThreadPoolExecutor
 REPO = os.environ.get('VERIF_REPO', '/repo')
 VERIF = os.path.dirname(os.path.dirname(os.path.abspath(__file__)))
 TOOL = os.path.join(VERIF, 'tool', 'opusfacts')
-CACHE = os.path.join(VERIF, '.cache')
+CACHE = os.environ.get('VERIF_CACHE') or os.path.join(VERIF, '.cache')
 
 CONFIGS = {
     'float':      ['-DOPUS_BUILD_TESTING=ON'],
